@@ -44,6 +44,7 @@
 #include <stdint.h>
 #include <memory>
 #include <array>
+#include <exception>
 
 #include <OpenVolumeMesh/Geometry/VectorT.hh>
 #include <OpenVolumeMesh/Mesh/PolyhedralMesh.hh>
@@ -321,12 +322,18 @@ bool FileManager::readStream(std::istream &_istream, MeshT &_mesh,
         }
     }
 
-    while(!_istream.eof()) {
-        // "End of file reached while searching for input!"
-        // is thrown here. \TODO Fix it!
-
-        // Read property
-        readProperty(_istream, _mesh);
+    try {
+        // stop at end of file, and also once the stream has failed (e.g. a value
+        // that cannot be parsed): a failed stream never reaches eof
+        while(_istream.good()) {
+            // Read property
+            readProperty(_istream, _mesh);
+        }
+    } catch (std::exception &e) {
+        if (verbosity_level_ >= 1) {
+            std::cerr << "OVM File loading error while reading properties: " << e.what() << std::endl;
+        }
+        return false;
     }
 
     if(_computeBottomUpIncidences) {
